@@ -16,7 +16,7 @@ from ..ref import interp as ri
 
 PID = "C05"
 RULE = ("cases = (fan-out machine, item array, MaxConcurrency, per-item worker delays, schedule). Machines: Map over k items (k = 0..4 quick / 0..8 thorough) with MaxConcurrency 0..k+1 and one or "
-        "two Task states per iteration, Parallel with 2..3 (..5) branches of one or two Tasks, and the nestings Map-of-Parallel / Parallel-containing-Map / Map-of-Map; followed by an 'After' Task. "
+        "two Task states per iteration, Parallel with 2..3 (..5) branches of one or two Tasks, and the nestings Map-of-Parallel / Parallel-containing-Map / Map-of-Map / Map whose iterations enter the same nested Parallel twice (a Choice loops back once); followed by an 'After' Task. "
         "Schedules: every interleaving (stateless DFS, bounded number of schedules per case) for small cases, Hypothesis choice lists otherwise. Oracles: output position i = reference output of "
         "branch/item i for every schedule; the After request is issued only after the last branch reply was handed to the engine; every item index is requested exactly once; requests issued minus "
         "replies delivered for a Map never exceeds MaxConcurrency > 0. Non-trivial = fan-out of at least 2 and the schedule (or the delays) deviates from index order. Distinct by canonical JSON of (case, schedule).")
@@ -64,6 +64,21 @@ def build(case):
         m = {"Type": "Map", "ItemsPath": "$.items", "ItemProcessor": {"StartAt": "IP", "States": {"IP": inner}}, "Next": "After"}
         if mc is not None:
             m["MaxConcurrency"] = mc
+        states = {"M": m, "After": after}
+    elif kind == "map-of-looped-parallel":
+        # every iteration enters the same nested Parallel twice (a Choice loops back once): each entry is a fan-out of its own, the second pass must not see the first one's results
+        inner = {"Type": "Parallel", "ResultPath": "$.r", "Next": "Loop", "Branches": [
+            {"StartAt": "PA", "States": {"PA": {"Type": "Task", "Resource": fn("item"), "Parameters": {"k.$": "$.k", "b": 0, "pass.$": "$.pass"}, "End": True}}},
+            {"StartAt": "PB", "States": {"PB": {"Type": "Task", "Resource": fn("item"), "Parameters": {"k.$": "$.k", "b": 1, "pass.$": "$.pass"}, "End": True}}}]}
+        proc = {"StartAt": "IP", "States": {
+            "IP": inner,
+            "Loop": {"Type": "Choice", "Choices": [{"Variable": "$.pass", "NumericEquals": 0, "Next": "Inc"}], "Default": "Done"},
+            "Inc": {"Type": "Pass", "Result": 1, "ResultPath": "$.pass", "Next": "IP"},
+            "Done": {"Type": "Succeed"}}}
+        m = {"Type": "Map", "ItemsPath": "$.items", "ItemProcessor": proc, "Next": "After"}
+        if mc is not None:
+            m["MaxConcurrency"] = mc
+        items = [{"k": i, "pass": 0} for i in range(n)]
         states = {"M": m, "After": after}
     elif kind == "parallel-with-map":
         m = {"Type": "Map", "ItemsPath": "$.items", "ItemProcessor": item_proc("I"), "End": True}
@@ -137,8 +152,8 @@ def run_once(case, schedule, eager_time=False):
                 if after_req[0]["seq"] < last_branch_reply:
                     fails.append(("join-before-all-branches-finished", "the After request (op %d) was issued before the last branch reply was delivered (op %d)" % (after_req[0]["seq"], last_branch_reply)))
         # (3) in-flight iterations of the (outer) Map never exceed MaxConcurrency
-        if case["kind"] in ("map", "map-of-parallel", "parallel-with-map", "map-of-map") and mc > 0:
-            per_iter_base = 2 if (case.get("two") and case["kind"] in ("map", "parallel-with-map")) or case["kind"] in ("map-of-parallel", "map-of-map") else 1
+        if case["kind"] in ("map", "map-of-parallel", "parallel-with-map", "map-of-map", "map-of-looped-parallel") and mc > 0:
+            per_iter_base = 4 if case["kind"] == "map-of-looped-parallel" else 2 if (case.get("two") and case["kind"] in ("map", "parallel-with-map")) or case["kind"] in ("map-of-parallel", "map-of-map") else 1
             caught_set = set(case.get("caught") or []) if case["kind"] in ("map", "parallel-with-map") else set()
             per_iter_of = lambda i: 2 if i in caught_set else per_iter_base       # a caught iteration is its failing Task plus the fallback Task
             corr_idx, started, done, peak, peak_at = {}, set(), {}, 0, None
@@ -187,6 +202,8 @@ def expected_item_payloads(case):
         return [{"k": i} for i in range(n)]
     if k == "map-of-parallel":
         return [{"k": i, "b": b} for i in range(n) for b in (0, 1)]
+    if k == "map-of-looped-parallel":
+        return [{"k": i, "b": b, "pass": p} for i in range(n) for b in (0, 1) for p in (0, 1)]
     if k == "parallel-with-map":
         return [{"k": i} for i in range(n)] + [{"k": 100}]
     if k == "map-of-map":
@@ -226,6 +243,7 @@ def small_cases(tier):
     out.append({"kind": "map", "n": 2, "mc": 1, "two": True})
     out.append({"kind": "parallel-with-map", "n": 1, "mc": 0})
     out.append({"kind": "map", "n": 3, "mc": 2, "two": False, "caught": [0], "recover_delay": 2})
+    out.append({"kind": "map-of-looped-parallel", "n": 1, "mc": 0})
     if tier == "thorough":
         out += [{"kind": "parallel", "n": 3, "two": False}, {"kind": "map", "n": 3, "mc": 2, "two": False}, {"kind": "map", "n": 3, "mc": 0, "two": False},
                 {"kind": "map-of-parallel", "n": 2, "mc": 1}, {"kind": "map-of-map", "n": 2, "mc": 1, "inner_mc": 1}, {"kind": "parallel-with-map", "n": 2, "mc": 1}]
@@ -263,7 +281,7 @@ def random_shard(k, seed, tier, examples=60):
 
     @st.composite
     def cases(draw):
-        kind = draw(st.sampled_from(["map", "map", "parallel", "map-of-parallel", "parallel-with-map", "map-of-map"]))
+        kind = draw(st.sampled_from(["map", "map", "parallel", "map-of-parallel", "parallel-with-map", "map-of-map", "map-of-looped-parallel"]))
         n = draw(st.integers(2, 5 if tier == "thorough" else 3)) if kind == "parallel" else draw(st.integers(0, maxn if kind == "map" else 3))
         c = {"kind": kind, "n": n, "two": draw(st.booleans()), "type": draw(st.sampled_from(["STANDARD", "EXPRESS"]))}
         c["mc"] = draw(st.one_of(st.none(), st.integers(0, n + 1))) if kind != "parallel" else None
